@@ -147,7 +147,7 @@ func message2Chunks(message []byte, header *base.RtmpHeader, prevHeader *base.Rt
 
 	// 计算chunk数量，最后一个chunk的大小
 	lastChunkSize := chunkSize
-	if len(message)%chunkSize != 0 {
+	if len(message)%chunkSize != 0 || len(message) == 0 {
 		numOfChunk++
 		lastChunkSize = len(message) % chunkSize
 		maxNeededLen += lastChunkSize + maxHeaderSize
@@ -192,7 +192,7 @@ func message2ChunksV(message net.Buffers, header *base.RtmpHeader, prevHeader *b
 	// 计算chunk数量，最后一个chunk的大小
 	numOfChunk := totalLen / chunkSize
 	lastChunkSize := chunkSize
-	if totalLen%chunkSize != 0 {
+	if totalLen%chunkSize != 0 || totalLen == 0 {
 		numOfChunk++
 		lastChunkSize = totalLen % chunkSize
 	}
